@@ -6,10 +6,11 @@ import "sync/atomic"
 
 // Scheduling points for the verification harness (build tag verif). All points
 // in the flusher are at places where it holds no lock, so a worker parked at one
-// of them cannot block client operations. The one client-side point
+// of them cannot block client operations. The client-side points
 // (store.beforeMarkMetadataDirty, between a metadata update in memory and the
-// flusher being told about it) is reached with the store mutex held: other client
-// operations wait, the flusher does not.
+// flusher being told about it; store.deleteAfterAbort, between Delete's abort of
+// the flush and its removal of the disk entry) are reached with the store mutex
+// held: other client operations wait, the flusher does not.
 
 var verifYieldFn atomic.Value // func(point, key string)
 
